@@ -553,6 +553,20 @@ pub fn run(ctx: Ctx) -> ! {
         }
     }
 
+    // large blocks (a block spans several SIMD vectors of 4-bit codes): a thin slice of the shape axes
+    for &bs in &[128usize, 256] {
+        if block_sizes.contains(&bs) {
+            continue;
+        }
+        for &kb in &[1usize, 2, 3] {
+            for &n in &[1usize, 17] {
+                for &m in &[1usize, 2] {
+                    shapes.push((bs, kb, n, m, 1));
+                }
+            }
+        }
+    }
+
     // ---- BlockQuantizedGemm: Float mode on every ISA, Int8 mode on the native dot ISA ----
     let isas = util::available_isas();
     let mut configs: Vec<(Option<util::IsaSel>, &'static str)> = isas.iter().map(|i| (Some(*i), "Float")).collect();
@@ -709,7 +723,7 @@ pub fn run(ctx: Ctx) -> ! {
         "rule": "every (block size, k-blocks, n, m, batch) x every 4-bit code fill (16 constants, alternating pairs, position ramp) x scales {1, 0.5, -2, per-block ramp} x LHS {exactly int8-quantisable integers x 1, x 0.5; floats}: BlockQuantizedGemm Float mode on every ISA + Int8 mode; GemmExecutor+BlockQuantized for every f32 kernel; MatMulNBits models (accuracy_level 0/4, rank-2/3 A, 1-D/2-D scales, B initializer/input, zero_points and ragged K requested)",
         "exhaustive": true,
         "axes": {
-            "block_sizes": block_sizes, "k_blocks": k_blocks, "n": ns, "m": ms, "batch": batches,
+            "block_sizes": block_sizes, "large_block_sizes(thin shape slice)": [128, 256], "k_blocks": k_blocks, "n": ns, "m": ms, "batch": batches,
             "code_fills": codes.len(), "scales": ["1", "0.5", "-2", "ramp 2^((col+block)%4-2)"], "lhs": ["exact ints x1", "exact ints x0.5", "exact ints with all-zero K-blocks", "zeros", "floats"],
             "isas_float_mode": isas.iter().map(|i| i.name).collect::<Vec<_>>(),
             "f32_kernels": kernel_names,
